@@ -784,6 +784,8 @@ def run(ctx):
     importlib.import_module('props.joinvars').run(ctx, THEOREM + ' ; C08_join_sides_swap (JoinVars.v)')
     # variable level: aN vs a[N], token boundaries, digits, record-number names (VarSpelling.v, entries 535-537)
     importlib.import_module('props.varspell').run(ctx)
+    # recorded finding F5: a column named like a number captures the a[N] spelling in rbql-js (KNOWN-FINDING while it reproduces)
+    importlib.import_module('props.numcols').run(ctx, THEOREM)
 
 
 def shrink_internal(c, e, g):
@@ -821,6 +823,8 @@ def eval_internal(c, code):
 
 
 def replay(ctx, case):
+    if case.get('part') == 'numcols':
+        return __import__('importlib').import_module('props.numcols').replay(ctx, case, THEOREM)
     if case.get('part') == 'joinvars':
         return importlib.import_module('props.joinvars').replay(ctx, case, THEOREM)
     if case.get('part') == 'varspell':
